@@ -260,6 +260,11 @@ Definition wire (ls : list leaf) (ps : list N) (hops : list (list N * list nat))
       end
   end.
 
+(** The far end's decision per origin request, in the order of the origin table: accepted iff some
+    delivered request carrying its id was matched. *)
+Definition decisions (w : wired) : list bool :=
+  map (fun e => existsb (fun a => r_id (a_req a) =? fst e) (w_acc w)) (w_table w).
+
 (** ** Resolution of one request along the chain, under all schedules
 
     Connections are numbered 1 .. h (1 = at the origin).  A request that was sent travels towards the
